@@ -401,6 +401,20 @@ func enumerate(c *mon.Case, r *mon.Run, work string, pre dirState, allTorn bool,
 type identity struct {
 	cert string
 	iat  map[string]bool // admissible advertised iat-mode values
+	args []string        // node-id=, private-key=, drbg-seed= of the persisted identity
+}
+
+// idArgs extracts the identity arguments from a state file.
+func idArgs(stateJSON string) []string {
+	var js struct {
+		NodeID string `json:"node-id"`
+		Priv   string `json:"private-key"`
+		Seed   string `json:"drbg-seed"`
+	}
+	if json.Unmarshal([]byte(stateJSON), &js) != nil || js.NodeID == "" {
+		return nil
+	}
+	return []string{"node-id=" + js.NodeID, "private-key=" + js.Priv, "drbg-seed=" + js.Seed}
 }
 
 func judgeStart(c *mon.Case, r *mon.Run, work string, cs crashState, want identity, hist string, step int) {
@@ -434,6 +448,24 @@ func judgeStart(c *mon.Case, r *mon.Run, work string, cs crashState, want identi
 		c.Violation("iat-mode-wrong/"+cls, fmt.Sprintf("after a crash (%s) the next start advertises iat-mode=%s, admissible %v", cs.desc, o.IAT, want.iat), wit)
 	default:
 		r.Count("crash_state_start_ok", 1)
+	}
+	// the same crash state must also survive the other kind of start: one with
+	// the identity given explicitly (which writes a document of another length),
+	// followed by a plain start
+	if len(want.args) > 0 && (cs.k%2 == 0 || cs.torn) {
+		cs.st.writeTo(dir)
+		o1, err1 := runHelper(append([]string{"obfs4-start", dir}, want.args...)...)
+		o2, err2 := runHelper("obfs4-start", dir)
+		r.Count("evaluations", 1)
+		r.Count("crash_states_judged_by_explicit_then_plain_start", 1)
+		switch {
+		case err1 != nil || err2 != nil:
+			c.Violation("crash/start-crashed/"+cls, fmt.Sprintf("%v / %v", err1, err2), wit)
+		case !o1.OK || o1.Cert != want.cert:
+			c.Violation("identity-lost/explicit-start-after-crash/"+cls, fmt.Sprintf("after a crash (%s) a start with the identity given explicitly fails or presents another identity: ok=%v err=%s cert=%s want %s", cs.desc, o1.OK, o1.Err, o1.Cert, want.cert), wit)
+		case !o2.OK || o2.Cert != want.cert:
+			c.Violation("identity-lost/start-after-crash-and-explicit-start/"+cls, fmt.Sprintf("after a crash (%s) and a successful start with the identity given explicitly, the next plain start fails or presents another identity: ok=%v err=%s cert=%s want %s", cs.desc, o2.OK, o2.Err, o2.Cert, want.cert), wit)
+		}
 	}
 }
 
@@ -469,7 +501,7 @@ func runHistory(c *mon.Case, r *mon.Run, name string, steps []step, allTorn, val
 		}
 		iatNew := res.out.IAT
 		if si == 0 {
-			id = identity{cert: res.out.Cert, iat: map[string]bool{iatNew: true}}
+			id = identity{cert: res.out.Cert, iat: map[string]bool{iatNew: true}, args: idArgs(res.post["obfs4_state.json"])}
 			// from the moment the first complete state file exists, the identity counts as persisted
 			first := -1
 			for i, cs := range res.states {
@@ -507,7 +539,7 @@ func runHistory(c *mon.Case, r *mon.Run, name string, steps []step, allTorn, val
 				r.Count("control_restart_same_identity", 1)
 			}
 			for _, cs := range res.states {
-				judgeStart(c, r, work, cs, identity{cert: id.cert, iat: adm}, hist, si)
+				judgeStart(c, r, work, cs, identity{cert: id.cert, iat: adm, args: id.args}, hist, si)
 			}
 			id.iat = map[string]bool{iatNew: true}
 		}
